@@ -809,6 +809,11 @@ class Interp:
                     # asimap looked between the agent's two steps: legitimate
                     self.ctx.probe("split_delivery_observed_midway")
                     m.flags = g["flags"]
+                    # what sessions were told (or worked out from their own silent stores) on the ambiguous base
+                    for ms2 in self.model.sessions.values():
+                        k2 = ms2.know.get(g["uid"])
+                        if k2 is not None and (k2 ^ m.flags) == {"\\seen"}:
+                            ms2.know[g["uid"]] = m.flags
             if m.flags != g["flags"]:
                 self.V(
                     "C04", "flags_diverge", mailbox=box.name, uid=g["uid"], tok=m.tok,
@@ -1160,6 +1165,8 @@ class Interp:
             self.C("c05_append_missing")
             if r.ok:
                 self.V("C05", "append_to_missing_mailbox_ok", mailbox=name)
+            elif box is not None:
+                self.placeholder_untouched(box, f"APPEND {name}", r)
             return
         if not r.ok:
             if "\\recent" in [canon_flag(f) for f in flags]:
@@ -1187,6 +1194,14 @@ class Interp:
         if ms.selected is box:
             pass
         await self.after_mutation([box], "append")
+
+    def placeholder_untouched(self, box, cmd, r):
+        """C05: a command refused because its destination is a \\Noselect placeholder wrote nothing into it."""
+        self.C("c05_placeholder_untouched")
+        path = os.path.join(self.maildir, box.name)
+        keys = [k for k in self.live_keys(box) if (path, str(k)) not in self.delivered]  # (not what the MH agent put there)
+        if keys:
+            self.V("C05", "refused_command_had_effect", cmd=cmd, mailbox=box.name, files=keys[:5], reply=r.brief())
 
     def flags_for_store(self, cur, how, flags):
         f = norm_flags(flags)
@@ -1780,6 +1795,8 @@ class Interp:
             self.C("c05_copy_missing_dst")
             if r.ok:
                 self.V("C05", "copy_to_missing_mailbox_ok", dst=dstname)
+            elif dst is not None:
+                self.placeholder_untouched(dst, f"{verb} {txt} {dstname}", r)
             await self.after_mutation(boxes, verb.lower() + "-refused")
             return
         if not r.ok:
